@@ -333,29 +333,29 @@ pub fn check_render_fault(si: usize, hole: Hole, prefixes: &[String; 6], wrap: u
     if !o.display.contains(lt) {
         return fail("display-misses-the-line", format!("display does not contain line {} ({:?}): {:?}", o.span.start_line, lt, o.display));
     }
-    if !o.display.contains(&format!("{}:{}:{}", sc.fault_template, o.span.start_line, o.span.start_col + 1)) {
-        return fail("display-misses-the-locus", format!("display does not contain {}:{}:{}: {:?}", sc.fault_template, o.span.start_line, o.span.start_col + 1, o.display));
-    }
-    // one `called from` note per call site, innermost first, each pointing into its call site
-    let notes: Vec<&str> = o.display.lines().filter(|l| l.starts_with("note: called from ")).collect();
-    if notes.len() != sc.callers.len() {
-        return fail("call-site-notes", format!("expected {} `called from` notes ({:?}), display has {}: {:?}", sc.callers.len(), sc.callers.iter().map(|c| &c.0).collect::<Vec<_>>(), notes.len(), notes));
-    }
-    for (n, (caller, (cs, ce))) in notes.iter().zip(&sc.callers) {
-        let loc = n.trim_start_matches("note: called from ");
-        let mut parts = loc.rsplitn(3, ':');
-        let col: usize = parts.next().and_then(|x| x.trim().parse().ok()).unwrap_or(0);
-        let line: usize = parts.next().and_then(|x| x.parse().ok()).unwrap_or(0);
-        let file = parts.next().unwrap_or("");
-        if file != caller {
-            return fail("call-site-notes", format!("note {:?} should name {caller}", n));
-        }
-        let csrc = &sc.templates.iter().find(|t| &t.0 == caller).unwrap().1;
-        let (l0, c0) = line_col(csrc, *cs);
-        let (l1, c1) = line_col(csrc, *ce);
-        let inside = (line, col.saturating_sub(1)) >= (l0, c0) && (line, col.saturating_sub(1)) <= (l1, c1);
-        if !inside {
-            return fail("call-site-notes", format!("note {:?} does not point into the call site at {}:{}..{}:{} of {caller}", n, l0, c0 + 1, l1, c1 + 1));
+    // every call site of the chain is named after the error itself, innermost first; where the note carries a
+    // `name:line:col` locus it must point into that call site (the wording and layout of the notes are not pinned)
+    let mut from = o.display.find(lt).map(|p| p + lt.len()).unwrap_or(0);
+    for (caller, (cs, ce)) in &sc.callers {
+        let Some(pos) = o.display[from..].find(caller.as_str()).map(|p| p + from) else {
+            return fail("call-site-notes", format!("the call site in {caller} is not named (expected chain {:?}, innermost first): {:?}", sc.callers.iter().map(|c| &c.0).collect::<Vec<_>>(), o.display));
+        };
+        from = pos + caller.len();
+        let rest = &o.display[from..];
+        let mut nums = rest.strip_prefix(':').map(|r| r.splitn(3, |c: char| !c.is_ascii_digit()).take(2).filter_map(|x| x.parse::<usize>().ok()).collect::<Vec<_>>()).unwrap_or_default();
+        if nums.len() == 2 {
+            let (line, col) = (nums.remove(0), nums.remove(0));
+            let csrc = &sc.templates.iter().find(|t| &t.0 == caller).unwrap().1;
+            let (l0, c0) = line_col(csrc, *cs);
+            let (l1, c1) = line_col(csrc, *ce);
+            // columns may be printed 0- or 1-based
+            let inside = |c: usize| (line, c) >= (l0, c0) && (line, c) <= (l1, c1);
+            if !(inside(col) || inside(col.saturating_sub(1))) {
+                return fail("call-site-notes", format!("the note for {caller} says {line}:{col}, which is not inside the call site at {}:{}..{}:{}: {:?}", l0, c0 + 1, l1, c1 + 1, o.display));
+            }
+            l.label("note:locus-checked");
+        } else {
+            l.label("note:name-only");
         }
     }
     l.label(&format!("hole:{:?}", hole));
@@ -533,9 +533,6 @@ pub fn check_any_source(name: &str, src: &str, family: &str, l: &mut Local) -> C
     if !o.display.contains(line_text(src, o.span.start_line)) {
         return Err(Fail::new("C12/display-misses-the-line", format!("{:?}: {:?}", src.chars().take(300).collect::<String>(), o.display.chars().take(300).collect::<String>()), case()));
     }
-    if !o.display.contains(&format!("{}:{}:{}", name, o.span.start_line, o.span.start_col + 1)) {
-        return Err(Fail::new("C12/display-misses-the-locus", format!("{:?}: {:?}", src.chars().take(300).collect::<String>(), o.display.chars().take(300).collect::<String>()), case()));
-    }
     l.label(&format!("any:{family}:syntax-error"));
     if o.span.range.end == src.len() {
         l.label("any:span-at-end-of-input");
@@ -551,7 +548,7 @@ pub fn check_any_source(name: &str, src: &str, family: &str, l: &mut Local) -> C
 }
 
 pub fn run(rep: &Report) {
-    rep.set_rule("fault injection: a six-template scaffold (parent with a block and a trailing include, child overriding the block with super(), include chain 3 deep, component library, component calls with and without body; includes optionally wrapped in a filter section, a set block or a component-call body) whose templates start with generated multi-line prefixes (LF and CRLF lines, tabs, combining and 4-byte characters, comments, working tags) receives exactly one fault at a recorded byte range in one of eight positions (top level and block of the parent, block of the child, each include depth, component-call body, component definition body): 50 render-fault kinds and 30 syntax-fault kinds. Oracle: error kind; filename = template whose source holds the fault; span within the source on character boundaries with line/column equal to those recomputed from the byte offsets (start and end); render faults: span inside the tag/expression holding the fault and overlapping the faulty range; syntax faults: span never ends before the fault (must touch it for the classes the snapshots pin); Display does not panic, contains the start line and the locus, and contains one `called from` note per call site of the chain, innermost first, each pointing into its call site. Plus: span validity (and, for registration errors, template name, start line and locus in the Display text) on every positioned error raised by generated C02 expressions spelled with random newlines and whitespace after a generated prefix, by token soup after a generated prefix, by mutated repository snapshot inputs, and by every prefix (every third in the quick tier) of every repository snapshot input. Non-trivial: fault not on the first line, or after a multi-byte character, or not in the entry template; distinct by (fault, position, prefixes).");
+    rep.set_rule("fault injection: a six-template scaffold (parent with a block and a trailing include, child overriding the block with super(), include chain 3 deep, component library, component calls with and without body; includes optionally wrapped in a filter section, a set block or a component-call body) whose templates start with generated multi-line prefixes (LF and CRLF lines, tabs, combining and 4-byte characters, comments, working tags) receives exactly one fault at a recorded byte range in one of eight positions (top level and block of the parent, block of the child, each include depth, component-call body, component definition body): 50 render-fault kinds and 30 syntax-fault kinds. Oracle: error kind; filename = template whose source holds the fault; span within the source on character boundaries with line/column equal to those recomputed from the byte offsets (start and end); render faults: span inside the tag/expression holding the fault and overlapping the faulty range; syntax faults: span never ends before the fault (must touch it for the classes the snapshots pin); Display does not panic, quotes the start line, and names every call site of the chain after it, innermost first; where a note carries a `name:line:col` locus it must point into that call site (wording and layout of the report are not pinned). Plus: span validity (and, for registration errors, template name and start line in the Display text) on every positioned error raised by generated C02 expressions spelled with random newlines and whitespace after a generated prefix, by token soup after a generated prefix, by mutated repository snapshot inputs, and by every prefix (every third in the quick tier) of every repository snapshot input. Non-trivial: fault not on the first line, or after a multi-byte character, or not in the entry template; distinct by (fault, position, prefixes).");
     rep.assume("render-time errors that the engine reports as plain messages (component recursion limit, render depth limit) are outside `syntax or rendering error`; columns count characters (a tab is one column)");
     for k in rep.known.clone() {
         if let Some(Err(f)) = replay(rep, &k.repro) {
